@@ -21,8 +21,10 @@
 (*             r_send  duplicate test on acks/responses, then [closeLock]       *)
 (*                     closed? / non-blocking send / record                     *)
 (*   timer k : t_del   queryLock.Lock(); delete(queryResponse, resp.lTime)      *)
-(*             t_close [closeLock] Close(): once, closes both channels;         *)
-(*                     queryLock.Unlock()                                       *)
+(*             t_cl1   [closeLock] Close(): closed := true; close(ackCh)        *)
+(*             t_cl2   close(respCh); queryLock.Unlock()   (the application     *)
+(*                     reads the channels without any lock, so it can see one   *)
+(*                     channel closed and the other not yet)                    *)
 (* Merged steps (sound reductions): the duplicate test reads maps only the one  *)
 (* packet-handler thread writes; the unlock after Close commutes with every     *)
 (* action enabled in between; handleQuery's own queryLock section has no effect *)
@@ -57,7 +59,7 @@ ReplyOp(lt, idr, from, ack, tag) ==
   [op |-> "reply", k |-> 0, lt |-> lt, idr |-> idr, from |-> from, ack |-> ack, tag |-> tag]
 
 Q0 == [st |-> 0, lt |-> 0, acks |-> {}, resps |-> {}, closed |-> FALSE, dl |-> FALSE, armed |-> FALSE,
-       ackCh |-> <<>>, respCh |-> <<>>]
+       ackCh |-> <<>>, respCh |-> <<>>, ackCl |-> FALSE, respCl |-> FALSE]
 NoRcv == [k |-> 0, ack |-> <<>>, resp |-> <<>>, ackClosed |-> FALSE, respClosed |-> FALSE]
 NoOut == [rcv |-> NoRcv, beg |-> NoOp, fin |-> NoOp]
 IdleTh == [pc |-> "idle", op |-> NoOp, x |-> 0, n |-> 0]
@@ -83,13 +85,13 @@ Begin(s0, t, o) ==
          ELSE { Fin([s EXCEPT !.q[o.k].dl = TRUE], t) }
     [] o.op = "timer" ->
          IF ~s.q[o.k].armed \/ ~s.q[o.k].dl \/ s.qlock # 0 THEN {}
-         ELSE { [s EXCEPT !.qlock = t, !.q[o.k].armed = FALSE, !.open[s.q[o.k].lt] = 0, !.th[t].pc = "t_close"] }
+         ELSE { [s EXCEPT !.qlock = t, !.q[o.k].armed = FALSE, !.open[s.q[o.k].lt] = 0, !.th[t].pc = "t_cl1"] }
     [] o.op = "recv" ->
          IF s.q[o.k].st # 2 THEN {}
          ELSE LET qq == s.q[o.k] IN
               { Fin([s EXCEPT !.q[o.k].ackCh = <<>>, !.q[o.k].respCh = <<>>,
                               !.out.rcv = [k |-> o.k, ack |-> qq.ackCh, resp |-> qq.respCh,
-                                           ackClosed |-> qq.closed, respClosed |-> qq.closed]], t) }
+                                           ackClosed |-> qq.ackCl, respClosed |-> qq.respCl]], t) }
     [] OTHER -> {}
 
 \* next action of the operation thread t is executing
@@ -115,8 +117,11 @@ Cont(s0, t) ==
            ELSE IF Len(qq.respCh) < Cap
                   THEN { Fin([s EXCEPT !.q[th.x].respCh = Append(@, <<o.from, o.tag>>), !.q[th.x].resps = @ \cup {o.from}], t) }
                   ELSE { Fin(s, t) }
-    [] th.pc = "t_close" ->
-         { Fin([s EXCEPT !.q[o.k].closed = TRUE, !.qlock = 0], t) }
+    [] th.pc = "t_cl1" ->
+         IF s.q[o.k].closed THEN { Fin([s EXCEPT !.qlock = 0], t) }      \* Close() is idempotent
+         ELSE { [s EXCEPT !.q[o.k].closed = TRUE, !.q[o.k].ackCl = TRUE, !.th[t].pc = "t_cl2"] }
+    [] th.pc = "t_cl2" ->
+         { Fin([s EXCEPT !.q[o.k].respCl = TRUE, !.qlock = 0], t) }
     [] OTHER -> {}
 
 \* one atomic action of thread t; ops = the operations t may start next
